@@ -1309,10 +1309,69 @@ def _candidates(I, v):
     return None
 
 
+@prim("scipy.sparse.issparse", "scipy.sparse.isspmatrix")
+def p_issparse(I, n, pos, kw):
+    return Sc(sym.Opq("config", (), fresh("issparse")))   # either kind of input may arrive: both arms are followed
+
+
+@prim("scipy.sparse.csgraph.shortest_path")
+def p_shortest_path(I, n, pos, kw):
+    """the matrix of shortest-path lengths of a graph on V vertices: a V×V table of opaque entries (possibly infinite)"""
+    from .values import rows
+    i, j = fresh(), fresh()
+    I.event("shortest_path", n, graph=pos[0] if pos else None, kwargs=kw)
+    return Arr([(rows("V"), i), (rows("V"), j)], sym.In("dg", ((i, 0), (j, 0))), "nd")
+
+
+@prim("scipy.sparse.csgraph.connected_components")
+def p_connected_components(I, n, pos, kw):
+    """(number of components, label of the component of every vertex)"""
+    from .values import rows
+    i = fresh()
+    return Seq([Sc(sym.Sym("n_components")), Arr([(rows("V"), i)], sym.In("label", ((i, 0),)), "nd")], "tuple")
+
+
+@prim("numpy.bincount")
+def p_bincount(I, n, pos, kw):
+    """how often each value 0, 1, … occurs in a 1-d array of labels: an opaque table indexed by the value"""
+    a = pos[0] if isinstance(pos[0], Arr) else arrays.to_arr(pos[0])
+    if isinstance(a, Arr) and a.ndim == 1 and not kw and len(pos) == 1:
+        k = fresh()
+        src = sorted(sym.inputs_of(a.elem))
+        return Arr([(rng(sym.Opq("n-values", tuple(sym.Sym(x) for x in src), None)), k)],
+                   sym.Opq("count-of-value", tuple(sym.Sym(x) for x in src) + (sym.IV(k),), None), "nd")
+    return I.unknown("prim:numpy.bincount", n)
+
+
+@prim("numpy.compress")
+def p_compress(I, n, pos, kw):
+    """np.compress(mask, a, axis=k): the entries of a along axis k at which the mask holds"""
+    cond = pos[0] if pos else kw.get("condition")
+    a = pos[1] if len(pos) > 1 else kw.get("a")
+    ax = _kw(kw, pos, "axis", 2)
+    a = a if isinstance(a, Arr) else (arrays.to_arr(a) if a is not None else None)
+    k = _num(ax) if ax is not None and not isinstance(ax, NoneV) else None
+    if not isinstance(a, Arr) or k is None or not isinstance(cond, Arr):
+        return I.unknown("prim:numpy.compress", n)
+    k = int(k) % a.ndim
+    idx = [("full",)] * k + [("mask", cond)] + [("full",)] * (a.ndim - k - 1)
+    return arrays.index(a, idx, I)
+
+
 @prim("numpy.unique")
 def p_unique(I, n, pos, kw):
     v = pos[0]
     I.event("unique", n, arg=v)
+    rc = kw.get("return_counts")
+    if isinstance(rc, Sc) and rc.e == sym.TRUE and not any(k_ in kw for k_ in ("return_index", "return_inverse", "axis")):
+        a = v if isinstance(v, Arr) else arrays.to_arr(v)
+        if isinstance(a, Arr) and a.ndim == 1:
+            # (distinct values in increasing order, how often each occurs): two opaque tables over the distinct values
+            src = tuple(sym.Sym(x) for x in sorted(sym.inputs_of(a.elem)))
+            sp = rng(sym.Opq("n-values", src, None))
+            k1, k2 = fresh(), fresh()
+            return Seq([Arr([(sp, k1)], sym.Opq("distinct-value", src + (sym.IV(k1),), None), "nd"),
+                        Arr([(sp, k2)], sym.Opq("count-of-distinct-value", src + (sym.IV(k2),), None), "nd")], "tuple")
     c_ = _candidates(I, v)
     if c_ is not None:
         return c_
